@@ -9,7 +9,7 @@ from .common import Outcome, write_evidence, log
 
 PROP = 'C03'
 QUOTAS = {
-    'quick': {'cheap': 2, 'medium': 3, 'heavy': 1, 'F1:cheap': 14, 'F2:medium': 10, 'F6:cheap': 2, 'R:cheap': 5, 'R:medium': 6, 'R:heavy': 1},
+    'quick': {'cheap': 1, 'medium': 2, 'heavy': 0, 'F1:cheap': 10, 'F2:medium': 6, 'F6:cheap': 1, 'R:cheap': 3, 'R:medium': 4},
     'thorough': {'cheap': 150, 'medium': 90, 'heavy': 16, 'F1:cheap': 500, 'F2:medium': 140, 'R:cheap': 60,
                  'R:medium': 70, 'R:heavy': 16},
 }
